@@ -15,7 +15,9 @@ ID = "C06"
 RULE = ("page: collection tables of 0-200 rows with timestamp ties of every multiplicity (including runs longer "
         "than 3x the page size), page sizes 1..n+1 / 0 (server maximum) / server-side caps, schedules of "
         "modify/add/delete applied between page requests (fresh-now, merely per-collection-monotone, and hostile "
-        "additions with old timestamps), injected request and callback failures, plus small-scope interleavings "
+        "additions with old timestamps), injected request failures (500, transport error, status 200 with the body cut at "
+        "byte 0 / 1 / half / last, garbage JSON) and callback failures, pagecut: every truncation point of one page/count "
+        "response, plus small-scope interleavings "
         "(3-6 rows, page size 1-3, ordered pairs/triples of add/modify/delete in one or two successive gaps); idx/gidx: every cut point of "
         "generated well-formed index responses plus malformed streams (blank lines, CR, bad fields, mtime syntax "
         "and range, 64KiB lines, non-200 status, dropped connections); prod: volume outputs with failures; run: "
@@ -75,7 +77,7 @@ def overlay_generated(repo, workdir):
 
 def channel(case):
     op = case.split(" ", 1)[0]
-    if op in ("page", "run", "gcs"):
+    if op in ("page", "pagecut", "run", "gcs"):
         return "kb"
     if op in ("idx", "idxcut", "idxabort"):
         return "arv"
@@ -187,7 +189,7 @@ def _gen_page(rng, big):
     sch = ";".join(f"{k}:{','.join(v)}" for k, v in sorted(sched.items())) or "-"
     fail = "-"
     if rng.random() < 0.1:
-        fail = str(rng.randint(0, max(1, min(est, 12)))) + rng.choice(["", "", "n", "j"])
+        fail = str(rng.randint(0, max(1, min(est, 12)))) + rng.choice(["", "", "n", "j", "e", "e", "b", "h", "l"])
     cbf = "-"
     if rng.random() < 0.06:
         cbf = str(rng.randint(0, n + 1))
@@ -350,12 +352,12 @@ def _gen_gcs(rng):
     elif r < 0.8:
         bad = rng.randint(0, max(0, ncoll))
     else:
-        page = rng.randint(0, 6)
+        page = str(rng.randint(0, 6)) + rng.choice(["", "e"])
     if rng.random() < 0.15:
         if bad == "-":
             bad = rng.randint(0, max(0, ncoll))
         elif page == "-":
-            page = rng.randint(0, 6)
+            page = str(rng.randint(0, 6)) + rng.choice(["", "e"])
     return f"gcs {nsvc} {ncoll} {ps} {bufs} {idx} {bad} {page} {other} {hold} {pause}"
 
 
@@ -367,6 +369,13 @@ def generate(rng, tier):
         cases.append(_gen_page(rng, big))
     for _ in range(200 if not big else 3000):
         cases.append(_gen_pairs(rng))
+    # every truncation point of one page/count response of a scan over a static table
+    for _ in range(16 if not big else 150):
+        n = rng.randint(1, 7)
+        us = rng.sample(range(1, 99), n)
+        ts = [rng.choice([1, 1, 2, 3]) for _ in range(n)]
+        pop = ",".join(f"{u}:{t}" for u, t in zip(us, ts))
+        cases.append(f"pagecut {rng.choice([1, 2, 3, 0])} {pop} {rng.randint(0, n + 3)}")
     # (b) index readers: every cut point of well-formed responses
     for i in range(14 if not big else 120):
         short = not (i % 5 == 0)
@@ -392,10 +401,10 @@ def generate(rng, tier):
     # (c) sweep abort
     combos = []
     for flags in ("01011", "00011", "01111", "00000", "00010", "00001", "01001", "10011", "11011", "11111"):
-        for kind in ("500", "net", "trunc", "trunc1"):
+        for kind in ("500", "net", "trunc", "trunc1", "empty"):
             combos.append((flags, kind))
     rng.shuffle(combos)
-    for flags, kind in combos[:16 if not big else len(combos)]:
+    for flags, kind in combos[:20 if not big else len(combos)]:
         nsvc = rng.choice([1, 2, 3, 4])
         ncoll = rng.choice([0, 1, 2, 3, 5])
         ps = rng.choice([0, 1, 2, 3])
@@ -505,6 +514,8 @@ def compare(case, impl, model):
         return impl == model
     if op == "gcs":
         return model == "gcs" and _gcs_accepts(case, impl)
+    if op == "pagecut":
+        return model == "ok=-" and impl.endswith(" ok=-")
     if op in ("idxabort", "gidxabort"):
         a, b = impl.split(","), model.split(",")
         return len(a) == len(b) and all(x.startswith("e") for x in a)
@@ -615,6 +626,16 @@ def oracle(case, impl):
             return (f"scan returned nil but collection(s) {missing[:5]} that existed throughout the scan were "
                     f"never passed to the callback")
         return None
+    if op == "pagecut":
+        if " ok=" not in impl:
+            return "driver could not observe the behaviour: " + impl[:200]
+        oks = impl.split(" ok=", 1)[1]
+        for item in ([] if oks == "-" else oks.split(",")):
+            n, verdict = item.split(":", 1)
+            if verdict.startswith("missing."):
+                return (f"collections request {f[3]} was answered with a body cut short after {n} bytes, the scan "
+                        f"returned nil, and collection {verdict[8:]} was never passed to the callback")
+        return None
     if op in ("idxcut", "gidxcut"):
         body = unhx(f[1])
         ls = _wf_lines(body)
@@ -664,7 +685,7 @@ def oracle(case, impl):
             injected.append(f"index request of server {f[5]}")
         if f[6] != "-" and int(f[6]) < int(f[2]):
             injected.append(f"addCollection of collection {f[6]}")
-        if f[7] != "-" and int(f[7]) < int(d["creq"]):
+        if f[7] != "-" and int(f[7].rstrip("e")) < int(d["creq"]):
             injected.append(f"collections request {f[7]}")
         if injected and d["res"] != "1":
             return "GetCurrentState returned nil although " + " and ".join(injected) + " failed"
@@ -702,6 +723,8 @@ def nontrivial_key(case, impl):
         return case if f[3].count(",") >= 1 else None
     if f[0] in ("idxcut", "gidxcut", "idxabort", "gidxabort"):
         return case if len(f[1]) > 2 else None
+    if f[0] == "pagecut":
+        return case
     return case
 
 
@@ -756,6 +779,8 @@ def describe(cases, impl):
             d["run_sweeps"] += r.count(",") + 1
         elif f[0] in ("idxcut", "gidxcut", "idxabort", "gidxabort") and r:
             d["cut_points"] += r.count(",") + 1
+        elif f[0] == "pagecut" and r and r.startswith("len="):
+            d["page_cut_points"] = d.get("page_cut_points", 0) + int(r[4:].split(" ")[0])
     d["page"] = pg
     return d
 
